@@ -467,7 +467,9 @@ pub fn interrupt_case(rng: &mut Rng, cfg: GenCfg, prop: &'static str, max_points
 /// pool holds 65 535), an INPUT at the bottom, so that "at the INPUT wait" and "right after the
 /// reply" are interrupt instants with a nearly full stack; plus the usual enumeration.
 fn deep_case(rng: &mut Rng) -> Box<dyn Case> {
-    let k = 65_504 + rng.below(27) as u32;
+    // deep enough for the 'nearly full' rule (more than 65 503 values), with room left for the
+    // INPUT's own staging (pools driven over the limit are C18's subject)
+    let k = 65_504 + rng.below(14) as u32;
     let d = || Expr::var("D");
     let lit = |n: u32| Expr::Sng(n as f32);
     let prog = Program {
@@ -531,7 +533,9 @@ fn deep_case(rng: &mut Rng) -> Box<dyn Case> {
         replies: vec!["1".into(), "2,DEEP".into(), "3,X".into()],
         keys: vec![],
         layout_member: false,
-        inspect: rng.pct(50),
+        // no inspection line: with a few free slots left it may fail itself, and a failing direct
+        // statement between break and CONT is a grey zone
+        inspect: false,
         sched_seed: rng.next_u64(),
         entropy: rng.next_u64(),
         focus: Focus::All,
